@@ -273,7 +273,7 @@ func cmdCheck(args []string) int {
 	if update {
 		var keys []string
 		for k, ok := range claimOK {
-			if ok {
+			if _, isKnown := knownSet[k]; ok || isKnown {
 				keys = append(keys, k)
 			}
 		}
